@@ -142,16 +142,21 @@ class Prop(object):
             r.outcomes['rejected:' + type(e).__name__] += 1
             return 'rejected'
         want = rsig.hash_input(0x00, 22, 8, hashed, {'doc': DOC})
-        try:
-            got = s.hashdata(DOC)
-            same = bytes(got) == want
-        except Exception as e:
-            same, got = False, repr(e)
-        r.transitions += 1
-        if not same:
-            r.outcomes['accepted:hashdata-differs'] += 1
-            r.viol('hashdata', dict(tags, what='hashdata'), case, '%s: octets fed to the hash differ from the received hashed region' % label)
-            return 'bad'
+        import copy as _copy
+        for who, obj in (('parsed signature', s), ('copy of the parsed signature', _copy.copy(s))):
+            try:
+                got = obj.hashdata(DOC)
+                same = bytes(got) == want
+                if same and who.startswith('copy') and not pub.verify(DOC, obj):
+                    same = False
+            except Exception as e:
+                same, got = False, repr(e)
+            r.transitions += 1
+            if not same:
+                r.outcomes['accepted:hashdata-differs'] += 1
+                r.viol('hashdata', dict(tags, what='hashdata', through='copy' if who.startswith('copy') else 'parsed'), case,
+                       '%s: %s: octets fed to the hash differ from the received hashed region' % (label, who))
+                return 'bad'
         try:
             v = bool(pub.verify(DOC, s))
             err = None
